@@ -162,6 +162,7 @@ theorem step_Clean (st : State) (op : Op) (hop : op.clean = true) (h : st.src.Cl
   | importA ids =>
     simp only [step]; split <;> exact h
   | dump => exact h
+  | bigcase n imp => simp only [step]; split <;> exact h
 
 theorem seriesAlong_clean (ops : List Op) (st : State) (hops : ∀ op ∈ ops, op.clean = true)
     (h : st.src.Clean) : SeriesAlong st ops := by
@@ -249,6 +250,10 @@ theorem judge_step_clean (st : State) (recs : List Rec) (hinv : st.src.Inv) (hl 
   | compact => exact ⟨rfl, hrc⟩
   | age sec => simp only [step]; split <;> exact ⟨rfl, hrc⟩
   | dump => exact ⟨rfl, hrc⟩
+  | bigcase n imp =>
+    simp only [step]; split
+    · exact ⟨rfl, hrc⟩
+    · exact ⟨by simp [judge], hrc⟩
   | backup id since =>
     simp only [step, Shard.backup, State.put, judge]
     refine ⟨by rw [incrementalOK_backup]; rfl, ?_⟩
